@@ -104,15 +104,16 @@ type oblPart struct {
 }
 
 type Obligation struct {
-	Name   string
-	Kind   string
-	Fn     string
-	Props  []string
-	Parts  []oblPart
-	Src    string
-	Pos    string
-	Canary bool // must-fail canary
-	fx     *fnExec
+	Name     string
+	Kind     string
+	Fn       string
+	Props    []string
+	Parts    []oblPart
+	Src      string
+	Pos      string
+	Canary   bool // must-fail canary
+	NewField bool // frame obligation of a store to a field added after the baseline
+	fx       *fnExec
 	// results
 	Status   string // unsat sat unknown timeout error
 	Solver   string
